@@ -45,7 +45,11 @@ def language_of(basename):
 BUILTIN = [".bzr", ".direnv", ".eggs", ".git", ".git-rewrite", ".hg", ".ipynb_checkpoints", ".mypy_cache", ".nox", ".pants.d", ".pytest_cache",
            ".pytype", ".ruff_cache", ".svn", ".tox", ".venv", ".vscode", "__pypackages__", "_build", "buck-out", "build", "dist", "node_modules",
            "venv", "test", "tests"]
-PATTERNS = ["pkg", "a.py", "src/", "pkg/", "*.js", "*.py", "src/pkg", "src/a.py", "src/*", "pkg/*"]
+PATTERNS = ["pkg", "a.py", "src/", "pkg/", "*.js", "*.py", "src/pkg", "src/a.py", "src/*", "pkg/*",
+            # root-anchored single component: only the top-level entry of that name
+            "/pkg", "/a.py"]
+# ordered lists with a negation (last matching pattern wins); only combinations on which git and per-path matching agree
+NEGATION_LISTS = [["*.js", "!b.js"], ["pkg", "!src/pkg"], ["*.py", "!src/*.py"], ["src/*", "!src/a.py"]]
 
 
 def universal_paths():
@@ -64,9 +68,27 @@ def file_content(path):
 
 
 def ref_excluded(path, patterns):
-    """R-ignore for the five pattern classes (+ bare names of the built-in list)"""
-    comps = path.split("/")
+    """R-ignore for the enumerated pattern classes (+ bare names of the built-in list); a leading '!' negates and the
+    LAST matching pattern decides"""
+    verdict = False
     for pat in patterns:
+        neg = pat.startswith("!")
+        if _ref_match(path, pat[1:] if neg else pat):
+            verdict = not neg
+    return verdict
+
+
+def _ref_match(path, pat):
+    comps = path.split("/")
+    if pat.startswith("/"):
+        p = pat[1:]
+        return path == p or path.startswith(p + "/")
+    if "/" in pat and "*" in pat and not pat.endswith("/*"):
+        # anchored glob such as src/*.py: matches entries directly inside the directory (and everything below a matched directory)
+        d, g = pat.rsplit("/", 1)
+        dc = d.split("/")
+        return comps[:len(dc)] == dc and len(comps) > len(dc) and fnmatch.fnmatchcase(comps[len(dc)], g)
+    for pat in [pat]:
         if pat.endswith("/") and "/" not in pat[:-1]:
             if pat[:-1] in comps[:-1]:
                 return True
@@ -122,7 +144,7 @@ def calibrate():
     with harness.temp_tree() as root:
         subprocess.run(["git", "init", "-q", str(root)], check=True, capture_output=True)
         n = 0
-        for pats in [[p] for p in PATTERNS] + [["pkg", "*.js"], ["src/*", "a.py"]]:
+        for pats in [[p] for p in PATTERNS] + [["pkg", "*.js"], ["src/*", "a.py"]] + NEGATION_LISTS:
             (root / ".gitignore").write_text("\n".join(pats) + "\n")
             r = subprocess.run(["git", "-C", str(root), "check-ignore", "--no-index", "--stdin"], input="\n".join(paths), capture_output=True, text=True)
             ignored = set(r.stdout.split("\n")) - {""}
@@ -308,13 +330,14 @@ def run(ctx: core.Ctx):
         lists += [list(c) for c in itertools.combinations(PATTERNS, 2)]
     else:
         lists += [["pkg", "*.js"], ["src/*", "a.py"], ["src/", "pkg/*"]]
+    lists += NEGATION_LISTS
     spellings = ctx.pick(["relative", "absolute"], ["relative", "relative-from-parent", "absolute", "dotdot"])
     combos = []
     for pats in lists:
         for source in ("config", "option", "gitignore"):
             for sp in spellings:
                 combos.append((pats, source, sp))
-        if len(pats) == 2:
+        if len(pats) == 2 and not any(p.startswith("!") for p in pats):
             for sp in spellings:
                 for src in ("split", "option+config", "option+gitignore"):
                     combos.append((pats, src, sp))
